@@ -146,6 +146,27 @@ def tool_phase(ev, rep, work, tier):
         for comp in comps if si >= len(scen) - 2 else comps[:1 + si % 2]:
             base = ["-q", "-f", "-c", comp, "-b", "4096", "-F", s.packfile()]
             jobs.append(("gensquashfs", s.dir, base, None, "%s/%s" % (os.path.basename(s.dir), comp)))
+    # compressor-specific options (-X): trial strategies / filters / levels are packing options too, and some of them make the
+    # codec wrapper keep state between blocks (per worker!): gzip strategy trials, xz filter trials, lz4 hc, zstd level
+    xopts = [("gzip", "default,huffman"), ("gzip", "level=9,filtered,rle,fixed"), ("gzip", "huffman,default,window=11"),
+             ("xz", "dictsize=8192,x86,arm"), ("xz", "level=1,extreme"), ("lz4", "hc"), ("zstd", "level=12"), ("lzma", "lc=2,lp=1")]
+    if tier == "quick":
+        xopts = xopts[:3] + xopts[3:5][:1] + xopts[5:7]
+    noise = gen.Scenario(work, "s_noise")
+    r3 = random.Random(SEED + 9)
+    for i in range(8):
+        # data on which different strategies win for different blocks: noise, runs, text
+        parts = [gen.content(r3, r3.choice(["random", "text", "mixed"]), 4096) for _ in range(6)] + [bytes([i]) * 4096]
+        r3.shuffle(parts)
+        noise.add_file("/n%02d" % i, b"".join(parts))
+    # noise over a restricted alphabet: entropy coding alone (huffman) beats LZ77 + entropy coding on some blocks and loses on others
+    for i in range(6):
+        noise.add_file("/p%02d" % i, bytes(33 + r3.randrange(90) for _ in range(70000 + 1111 * i)) + gen.content(r3, "text", 30000))
+    for comp, xo in xopts:
+        for s in (noise, big):
+            bsz = "32768" if s is noise else "4096"
+            base = ["-q", "-f", "-c", comp, "-X", xo, "-b", bsz, "-F", s.packfile()]
+            jobs.append(("gensquashfs", s.dir, base, None, "%s/%s-X%s" % (os.path.basename(s.dir), comp, xo.replace(",", "+").replace("=", ""))))
     for name, data in tars:
         for comp in comps[:2]:
             d = work + "/" + name
